@@ -280,15 +280,16 @@ def composite_cases(rep: Report, rng: random.Random, n: int) -> None:
         if bad:
             rep.violation(f"{label}: {bad} differs from the composition of unit-scaled functions on the module's own parameters", case, key=f"functional_form:{case['module']}:{bad.split()[0]}")
 
-    for i in range(n):
+    import itertools
+
+    # the discrete options are ENUMERATED (heads x causal x dropout x mult x train/eval = 32 combinations, cycled), the sizes sampled
+    combos = list(itertools.product([1, 2], [False, True], [0.0, 0.1], [1.0, 0.5], [True, False]))
+    rng.shuffle(combos)
+    for i in range(max(n, len(combos))):
         torch.manual_seed(rng.randrange(1 << 20))
         hidden = rng.choice([4, 8])
-        heads = rng.choice([1, 2])
-        causal = rng.random() < 0.5
-        dp = rng.choice([0.0, 0.0, 0.1])
-        mult = rng.choice([1.0, 0.5, 2.0])
+        heads, causal, dp, mult, training = combos[i % len(combos)]
         ef = rng.choice([1, 2, 4])
-        training = rng.random() < 0.7
         x = torch.randn(2, 3, hidden)
         m1 = uu.MLP(hidden, ef).train(training)
         compare(f"MLP(hidden={hidden}, expansion_factor={ef})", m1, mlp_ref, x, {"module": "MLP", "hidden": hidden, "expansion_factor": ef})
@@ -303,6 +304,17 @@ def composite_cases(rep: Report, rng: random.Random, n: int) -> None:
         ids = torch.randint(0, 11, (2, 5))
         compare(f"TransformerDecoder(hidden={hidden}, layers={layers}, heads={heads}, dropout_p={dp}, training={training})", m4, decoder_ref, ids,
                 {"module": "TransformerDecoder", "hidden": hidden, "layers": layers, "heads": heads, "dropout_p": dp, "training": training})
+        # TransformerDecoder.loss = cross entropy of the logits at position t against the token at t + 1
+        if i % 4 == 0:
+            torch.manual_seed(99)
+            got = m4.loss(ids)
+            torch.manual_seed(99)
+            lg = m4(ids).float()
+            want = U.cross_entropy(lg[..., :-1, :].flatten(end_dim=-2), ids[..., 1:].flatten())
+            plain = F.cross_entropy(lg[..., :-1, :].flatten(end_dim=-2), ids[..., 1:].flatten())
+            if not torch.equal(got, want) or abs(float(got) - float(plain)) > 1e-5 * max(1.0, abs(float(plain))):
+                rep.violation(f"TransformerDecoder.loss(ids) = {float(got)!r}, cross entropy of the shifted logits = {float(want)!r} (torch: {float(plain)!r})",
+                              {"module": "TransformerDecoder", "what": "loss", "layers": layers, "heads": heads, "training": training}, key="functional_form:TransformerDecoder:loss")
         rep.case(("composite", i))
         # tags and depth
         for name, p in m4.named_parameters():
